@@ -165,7 +165,9 @@ variables
    defseq = [ii \in Insts |-> <<>>],                            \* every deferral [p, t] in order (first occurrences = arrival order)
    hdl = [ii \in Insts |-> <<>>],                               \* previously deferred occurrences [p, t] in the order they were finally handled
    dropped = [ii \in Insts |-> {}],                             \* payloads swallowed by a blocking state or a documented queue reset
-   pre = [blocked |-> FALSE, quiet |-> TRUE, act |-> <<>>], lastcall = [op |-> "none", i |-> 0, e |-> "", p |-> 0];
+   pre = [blocked |-> FALSE, quiet |-> TRUE, act |-> <<>>, all |-> <<>>],
+   used = [ii \in Insts |-> ii = 0],                            \* instance slots that hold an object (slot 0 from the beginning)
+   lastcall = [op |-> "none", i |-> 0, e |-> "", p |-> 0];
 
 define {
   CurLine == Trace[l]
@@ -658,9 +660,9 @@ M0: while (TRUE) {
           stored := [ii \in Insts |-> [mm \in Machines |-> <<>>]];
           dispd := [ii \in Insts |-> [mm \in Machines |-> <<>>]];
           defd := [ii \in Insts |-> {}]; dropped := [ii \in Insts |-> {}];
-          defseq := [ii \in Insts |-> <<>>]; hdl := [ii \in Insts |-> <<>>];
+          defseq := [ii \in Insts |-> <<>>]; hdl := [ii \in Insts |-> <<>>]; used := [ii \in Insts |-> ii = 0];
           gvmemo := [gg \in Def.guards |-> "u"];
-          lastcall := [op |-> "none", i |-> 0, e |-> "", p |-> 0]; pre := [blocked |-> FALSE, quiet |-> TRUE, act |-> <<>>];
+          lastcall := [op |-> "none", i |-> 0, e |-> "", p |-> 0]; pre := [blocked |-> FALSE, quiet |-> TRUE, act |-> <<>>, all |-> <<active, mq, dq, pool, hist, running>>];
        } or {
           await Mode = "trace" /\ HasLine /\ CurLine.k = "end";
           l := l + 1; wasreset := TRUE; obs := <<>>;
@@ -673,7 +675,7 @@ M0: while (TRUE) {
              ncalls := ncalls + 1; cbn := 0; obs := <<>>; wasreset := FALSE;
              gvmemo := [gg \in Def.guards |-> IF gg \in Def.sticky THEN gvmemo[gg] ELSE "u"];
              lastcall := [op |-> "start", i |-> ii, e |-> "", p |-> 0]; nothrow := TRUE;
-             pre := [blocked |-> FALSE, quiet |-> TRUE, act |-> active[ii]];
+             pre := [blocked |-> FALSE, quiet |-> TRUE, act |-> active[ii], all |-> <<active, mq, dq, pool, hist, running>>];
              call StartRoot(ii);
           };
        } or {
@@ -684,7 +686,7 @@ M0: while (TRUE) {
              ncalls := ncalls + 1; cbn := 0; obs := <<>>; wasreset := FALSE;
              gvmemo := [gg \in Def.guards |-> IF gg \in Def.sticky THEN gvmemo[gg] ELSE "u"];
              lastcall := [op |-> "stop", i |-> ii, e |-> "", p |-> 0]; nothrow := TRUE;
-             pre := [blocked |-> FALSE, quiet |-> TRUE, act |-> active[ii]];
+             pre := [blocked |-> FALSE, quiet |-> TRUE, act |-> active[ii], all |-> <<active, mq, dq, pool, hist, running>>];
              call StopRoot(ii);
           };
        } or {
@@ -695,7 +697,7 @@ M0: while (TRUE) {
              ncalls := ncalls + 1; cbn := 0; obs := <<>>; wasreset := FALSE;
              gvmemo := [gg \in Def.guards |-> IF gg \in Def.sticky THEN gvmemo[gg] ELSE "u"];
              lastcall := [op |-> "pe", i |-> cc.i, e |-> cc.e, p |-> cc.p]; nothrow := FALSE;
-             pre := [blocked |-> Blocked(cc.i, Def.root, cc.e), quiet |-> \A mm \in Machines : ~processing[cc.i][mm], act |-> active[cc.i]];
+             pre := [blocked |-> Blocked(cc.i, Def.root, cc.e), quiet |-> \A mm \in Machines : ~processing[cc.i][mm], act |-> active[cc.i], all |-> <<active, mq, dq, pool, hist, running>>];
              call PEI(cc.i, Def.root, [t |-> cc.e, p |-> cc.p], IF IsB THEN {"D"} ELSE {"direct"});
           };
        } or {
@@ -706,7 +708,7 @@ M0: while (TRUE) {
              ncalls := ncalls + 1; cbn := 0; wasreset := FALSE;
              obs := <<[k |-> "submit", i |-> cc.i, m |-> Def.root, id |-> "enq", e |-> cc.e, p |-> cc.p, r |-> TRUE, x |-> 0]>>;
              lastcall := [op |-> "enq", i |-> cc.i, e |-> cc.e, p |-> cc.p];
-             pre := [blocked |-> FALSE, quiet |-> TRUE, act |-> active[cc.i]];
+             pre := [blocked |-> FALSE, quiet |-> TRUE, act |-> active[cc.i], all |-> <<active, mq, dq, pool, hist, running>>];
              call Enqueue(cc.i, Def.root, [t |-> cc.e, p |-> cc.p]);
           };
        } or {
@@ -717,23 +719,25 @@ M0: while (TRUE) {
              ncalls := ncalls + 1; cbn := 0; obs := <<>>; wasreset := FALSE;
              gvmemo := [gg \in Def.guards |-> IF gg \in Def.sticky THEN gvmemo[gg] ELSE "u"];
              lastcall := [op |-> cc.op, i |-> cc.i, e |-> "", p |-> 0]; nothrow := FALSE;
-             pre := [blocked |-> FALSE, quiet |-> TRUE, act |-> active[cc.i]];
+             pre := [blocked |-> FALSE, quiet |-> TRUE, act |-> active[cc.i], all |-> <<active, mq, dq, pool, hist, running>>];
              if (IsB) { call DrainB(cc.i, Def.root, IF cc.op = "drain1" THEN 1 ELSE 0); }
              else { call PoolM(cc.i, Def.root, IF cc.op = "drain1" THEN 1 ELSE 0); };
           };
        } or {
           \* copy construction / copy assignment of a quiescent machine: instance j becomes a copy of instance i
           with (cc \in IF Mode = "trace" THEN (IF HasLine /\ CurLine.k = "call" /\ CurLine.op \in {"copy", "assign"} THEN {[i |-> CurLine.i, j |-> CurLine.j, op |-> CurLine.op]} ELSE {})
-                       ELSE {[i |-> ii, j |-> jj, op |-> oo] : ii \in {kk \in Insts : running[kk][Def.root]}, jj \in Insts, oo \in {"copy", "assign"} \cap Apis} \ {[i |-> ii, j |-> ii, op |-> oo] : ii \in Insts, oo \in {"copy", "assign"}}) {
+                       ELSE {cx \in {[i |-> ii, j |-> jj, op |-> oo] : ii \in {kk \in Insts : running[kk][Def.root]}, jj \in Insts, oo \in {"copy", "assign"} \cap Apis} :
+                                   cx.i # cx.j /\ (cx.op = "copy" => ~used[cx.j])}) {
              if (Mode = "trace") { l := l + 1; } else { await ncalls < MaxCalls; path := Append(path, [call |-> cc.op, i |-> cc.i, e |-> "", p |-> cc.j]); };
              ncalls := ncalls + 1; cbn := 0; obs := <<>>; wasreset := FALSE;
              lastcall := [op |-> cc.op, i |-> cc.j, e |-> "", p |-> cc.i];
-             pre := [blocked |-> FALSE, quiet |-> TRUE, act |-> active[cc.i]];
+             pre := [blocked |-> FALSE, quiet |-> TRUE, act |-> active[cc.i], all |-> <<active, mq, dq, pool, hist, running>>];
              active[cc.j] := active[cc.i]; running[cc.j] := running[cc.i]; processing[cc.j] := processing[cc.i];
              mq[cc.j] := mq[cc.i]; dq[cc.j] := dq[cc.i]; curseq[cc.j] := curseq[cc.i];      \* closures keep the object they were bound to
              pool[cc.j] := pool[cc.i]; seqcnt[cc.j] := seqcnt[cc.i]; hist[cc.j] := hist[cc.i];
              ledger[cc.j] := ledger[cc.i]; sawexc[cc.j] := sawexc[cc.i]; stored[cc.j] := stored[cc.i]; dispd[cc.j] := dispd[cc.i];
              defd[cc.j] := defd[cc.i]; dropped[cc.j] := dropped[cc.i]; defseq[cc.j] := defseq[cc.i]; hdl[cc.j] := hdl[cc.i];
+             used[cc.j] := TRUE;
              ret := 0;
           };
        };
